@@ -1,27 +1,41 @@
-import JunoModel.C13.ProofsToy
-import JunoModel.C13.ProofsCrash2
+import JunoModel.C13.ProofsToy2
+import JunoModel.C13.ProofsImage
 import JunoModel.C13.Tendermint
 /-!
-C13 — property theorems (statements only; helper lemmas are in `Proofs*.lean`).
-Every theorem in this module is an obligation listed in evidence/C13.json with its axioms.
+C13 — property theorems (statements only; proofs are in `Proofs*.lean`, `UpTo.lean`,
+`Tendermint.lean`). Every theorem in this module is an obligation listed in evidence/C13.json.
 
-Vocabulary (Model.lean / Spec.lean): `M : Machine S` is ANY deterministic consensus state machine
+Vocabulary (Model.lean / Spec.lean): `M : Machine S` is a deterministic consensus state machine
 (`step : S → Input → S × List Action`); `liveRun` is `driver.listen` (execute with
 `isReplaying = false`), `replayRun` is `driver.replay`, `recover` is a process restart from the
-crash image (flushed records only; machine created at `chainHeight + 1`). A crash point is a split
-`trace = pre ++ post` of the effect trace: the process dies after the effects `pre`.
+crash image (flushed records only; machine created at `chainHeight + 1`).
+
+`Moment M c0 n hist` (ProofsCrash4.lean): `n` is the node (log + chain) at a point where the
+process can die, in a history with ANY NUMBER of earlier deaths and restarts, `hist` all effects
+performed so far by all process instances: the first process is after any prefix of the effect
+trace of any run (before/after every individual append, flush, broadcast, timer, delivery, prune);
+or, from an earlier moment, the process died, was restarted and is after any prefix of its replay's
+effects; or it completed the replay and is after any prefix of the effects of any further inputs.
+
+`ReplaySafeUpTo M r` (UpTo.lean): what recovery needs from the state machine, with state
+comparisons up to a bisimulation `r` (`≈`): an input is ignored (state `≈` unchanged, no actions) or
+logged first; commit is last, for the current height, and leaves a machine `≈` a fresh one for the
+next height; messages before `start` and messages of future heights are only stored and commute
+(up to `≈`) with lower-height ones. `ReplaySafe M` is the same with `=`.
+
+What is NOT covered by a theorem about the current code: see the end of this file.
 -/
 namespace Juno.C13.Props
 open Juno.C13
 
-/-! ## Part 1 — for every state machine: visible ⇒ logged first -/
+/-! ## Part 1 — every input with a visible effect is logged, and flushed first -/
 
-/-- **visible_implies_logged** (live). For every state machine, every input sequence and every
-point of the effect trace: when a visible effect `x` (a broadcast or a commit delivery) is
-performed, no log record is pending, and every entry the driver appended before `x` is among the
-FLUSHED records that survive a crash at that very point — or is at/below the durable prune
-watermark (its height was committed, delivered and pruned). The log handle at boot may be in any
-state (`n` arbitrary). -/
+/-- For EVERY state machine, every input sequence, every boot state `n` of the log and every point
+of the effect trace: when a visible effect `x` (a broadcast or a commit delivery) is performed, no
+log record is pending, and every entry the driver appended before `x` is among the FLUSHED records
+that survive a crash at that very point — or is at/below the durable prune watermark (its height
+was committed, delivered and pruned). This is the half "entry ⇒ flushed before anything visible";
+the half "input with a visible effect ⇒ it has an entry" is the next theorem. -/
 theorem visible_implies_logged {S} (M : Machine S) (s : S) (ins : List Input) (n : Node)
     (pre : List Effect) (x : Effect) (post : List Effect)
     (hsplit : (liveRun M s ins).2 = pre ++ x :: post) (hv : x.visible = true) :
@@ -33,39 +47,69 @@ theorem visible_implies_logged {S} (M : Machine S) (s : S) (ins : List Input) (n
    fun e hm => logged_before_visible _ false n (by simp) (safe_liveRun M s ins false)
       pre x post hsplit hv e hm⟩
 
-/-- **visible_implies_logged** (during recovery). While replaying, the driver writes no entry at
-all, and at every visible effect of the replay nothing is pending (the only log write of a replay
-is the prune of a replayed commit, flushed immediately). `n` is any node whose pending batch is
-empty — in particular every crash image. -/
-theorem replay_visible_nothing_pending {S} (M : Machine S) (s : S) (L : List Entry) (n : Node)
-    (hn : n.store.pending = []) (pre : List Effect) (x : Effect) (post : List Effect)
-    (hsplit : (replayRun M s L).2 = pre ++ x :: post) (hv : x.visible = true) :
-    (applyEffects n pre).store.pending = [] ∧ ∀ e, Effect.append e ∉ (replayRun M s L).2 :=
-  ⟨pending_empty_at_visible _ true n (fun _ => hn) (safe_replayRun M s L).1 pre x post hsplit hv,
-   fun e => replayRun_no_append M s L e⟩
+/-- An input that makes ANYTHING visible has a log entry, written before everything else it
+causes: under the listen discipline a step whose effects contain a broadcast or a delivery returns
+`WriteWAL e` as its FIRST action, `e` re-feeds exactly that input, and the driver's first effect
+for the input is `append e` (so, by `visible_implies_logged`, `e` is flushed before the visible
+effect). Hypothesis: `logged_or_inert` of `ReplaySafeUpTo`. FALSE for juno's machine as it is:
+`tm_future_quorum_precommit_not_logged` (finding F4) — there the unlogged input has no visible
+effect in the same call, but is counted and contributes to later ones. -/
+theorem input_with_visible_effect_is_logged {S} (M : Machine S) (r : Setoid S)
+    (hs : ReplaySafeUpTo M r) (s : S) (i : Input)
+    (hi : M.started s = true ∨ i = Input.start) (hvis : visA (M.step s i).2 ≠ []) :
+    ∃ e rest, (M.step s i).2 = Action.writeWAL e :: rest ∧ e.toInput = i ∧
+      effectsOf false (M.step s i).2 = Effect.append e :: effectsOf false rest := by
+  rcases hs.logged_or_inert s i hi with ⟨_, h2⟩ | ⟨e, rest, h2, he, _, _, _⟩
+  · rw [h2] at hvis; exact absurd rfl hvis
+  · exact ⟨e, rest, h2, he, by rw [h2]; simp [effectsOf, Action.requiresWALFlush]⟩
 
-/-- What peers see does not depend on the mode: `execute` performs the same broadcasts and
-deliveries, in the same order, whether replaying or not (so a replay RE-BROADCASTS). -/
-theorem replay_rebroadcasts (acts : List Action) :
-    visibleOf (effectsOf true acts) = visibleOf (effectsOf false acts) :=
-  (visible_effectsOf_mode acts).symm
+/-! ## Part 2 — recovery, for histories with any number of crashes -/
 
-/-! ## Part 2 — for every state machine satisfying `ReplaySafe`: recovery is deterministic
+/-- **Recovery reaches the state of the uncrashed live run** (`≈`). At EVERY moment of EVERY
+history (any number of crashes, also during a recovery): if the process dies there and is
+restarted, the recovered machine is `≈` the state of an UNCRASHED LIVE RUN — from the original boot
+state, no replay, no skip rule — over some inputs `insd` whose log is exactly the flushed entries
+of the image ("processes again exactly the inputs it had durably recorded, ending in the state it
+would have reached without the crash"); every vote any earlier process instance ever broadcast is
+a vote of that run; and the machine resumes at last delivered height + 1 (deliveries re-executed by
+the replay included). -/
+theorem recovery_equals_live_run {S} (M : Machine S) (r : Setoid S) (hs : ReplaySafeUpTo M r)
+    (c0 : Nat) (n : Node) (hist : List Effect) (hm : Moment M c0 n hist) :
+    (∃ insd, ListenOK M (M.init (c0 + 1)) insd ∧
+      r.r (recover M n).1 (liveRun M (M.init (c0 + 1)) insd).1 ∧
+      entriesOfRecs n.store.flushed = loggedEntries M (M.init (c0 + 1)) insd ∧
+      (∀ v ∈ votesOf hist, v ∈ votesOf (liveRun M (M.init (c0 + 1)) insd).2)) ∧
+    M.height (recover M n).1 = (recover M n).2.2.chainHeight + 1 := by
+  refine ⟨recover_live_upTo hs c0 n hist hm, ?_⟩
+  have := resume_height _ hs.quot n
+  rw [quot_recover] at this
+  exact this
 
-`ReplaySafe M` (Spec.lean) collects what recovery needs from the state machine — all statements
-about `step` alone: an input is ignored or logged first; commit is last, for the current height,
-and leaves exactly a fresh machine for the next height; messages before `start` and messages of
-future heights are only stored and commute with lower-height ones. `toy_replaySafe` shows the
-hypotheses are satisfiable; the harness tests them on the real machine (shape of every action
-list, live state = fresh machine fed the node's own log, recovered state = uncrashed twin). -/
+/-- **no_conflicting_vote_after_recovery.** At EVERY moment of EVERY history: the process dies, is
+restarted from the crash image and then processes ANY further inputs `cont`. No prevote or
+precommit it broadcasts after the restart — while replaying or later — conflicts with (same kind,
+height, round, different id) one that ANY earlier process instance broadcast. Hypotheses:
+`ReplaySafeUpTo` (in particular: the machine used after the restart is the same function `step` —
+the `Application` answers identically during replay) and `NoEquivocation` (one uncrashed execution
+never equivocates). Without the first the statement is false:
+`conflicting_prevote_when_value_source_changes`. -/
+theorem no_conflicting_vote_after_recovery {S} (M : Machine S) (r : Setoid S)
+    (hs : ReplaySafeUpTo M r) (ne : NoEquivocation M) (c0 : Nat) (n : Node) (hist : List Effect)
+    (hm : Moment M c0 n hist) (cont : List Input) (okc : ListenOK M (recover M n).1 cont) :
+    ∀ v ∈ votesOf hist, ∀ w ∈ votesOf ((recover M n).2.1 ++ (liveRun M (recover M n).1 cont).2),
+      ¬ v.conflicts w :=
+  no_conflict_upTo hs ne c0 n hist hm cont okc
 
-/-- A live run is the replay of its own log: same final state, same visible effects in the same
-order (inputs that wrote nothing to the log changed nothing). -/
-theorem live_run_is_replay_of_its_log {S} (M : Machine S) (hs : ReplaySafe M) (s : S)
-    (ins : List Input) (ok : ListenOK M s ins) :
-    (liveRun M s ins).1 = (replayRun M s (loggedEntries M s ins)).1 ∧
-    visibleOf (liveRun M s ins).2 = visibleOf (replayRun M s (loggedEntries M s ins)).2 :=
-  ⟨(live_eq_replay M hs ins s ok).1, (live_eq_replay M hs ins s ok).2.1⟩
+/-- **Regular stop and restart.** `Run` returns (context cancelled or a listener closed, both only
+in the select loop) and its deferred `db.Close()` flushes the pending batch — also entries of
+inputs that made nothing visible and were never flushed before. A process restarted on that image
+is in exactly the state of the stopped one. -/
+theorem regular_stop_recovers_exact_state {S} (M : Machine S) (hs : ReplaySafe M) (c0 : Nat)
+    (ins : List Input) (ok : ListenOK M (M.init (c0 + 1)) ins) :
+    (recover M (applyEffects (Node.fresh c0)
+      ((liveRun M (M.init (c0 + 1)) ins).2 ++ [Effect.flush]))).1 =
+      (liveRun M (M.init (c0 + 1)) ins).1 :=
+  Juno.C13.regular_stop_recovers_exact_state M hs c0 ins ok
 
 /-- `LoadAllEntries` returns the log sorted by height, not in recording order (future-height
 messages are moved behind everything of lower heights). Replaying the sorted log reaches the same
@@ -79,207 +123,79 @@ theorem sorted_log_replays_like_live_run {S} (M : Machine S) (hs : ReplaySafe M)
   obtain ⟨g1, g2⟩ := replay_sorted_eq M hs s _ h3
   exact ⟨g1.trans h1.symm, g2.trans h2.symm⟩
 
-/-- **replay_deterministic.** The node boots with the chain at `c0` and an empty log and processes
-ANY inputs `ins` (under the listen discipline). Take ANY crash image `n` in which the chain is one
-below the machine's height and the durable live entries are the node's log above some watermark
-`p ≤ chain` (pruning may lag behind the chain). Then the restarted node — fresh machine at
-`chain + 1`, fed the height-sorted image — (1) ends in exactly the state of the uncrashed run,
-(2) re-broadcasts, during replay, every vote the uncrashed run had broadcast at the current height
-(prefix-consistent visible effects), and (3) resumes at `chain + 1` where `chain` is the last
-delivered height INCLUDING commits completed during the replay. -/
-theorem replay_deterministic {S} (M : Machine S) (hs : ReplaySafe M) (c0 : Nat) (ins : List Input)
-    (ok : ListenOK M (M.init (c0 + 1)) ins) (n : Node) (p : Nat)
-    (hchain : n.chainHeight + 1 = M.height (liveRun M (M.init (c0 + 1)) ins).1)
-    (hp : p ≤ n.chainHeight)
-    (hview : (view n.store.flushed).2 = above p (loggedEntries M (M.init (c0 + 1)) ins)) :
-    (recover M n).1 = (liveRun M (M.init (c0 + 1)) ins).1 ∧
-    (∀ v ∈ votesOf (liveRun M (M.init (c0 + 1)) ins).2,
-      v.h = M.height (liveRun M (M.init (c0 + 1)) ins).1 → v ∈ votesOf (recover M n).2.1) ∧
-    M.height (recover M n).1 = (recover M n).2.2.chainHeight + 1 := by
-  have inv := liveInv_run M hs ins _ [] c0 [] (liveInv_init M hs c0) ok
-  have hb : M.height (liveRun M (M.init (c0 + 1)) ins).1 - 1 = n.chainHeight := by omega
-  rw [hb] at inv
-  simp only [List.nil_append] at inv
-  obtain ⟨r1, r2⟩ := recover_eq M hs n _ n.chainHeight p rfl hp hview
-  refine ⟨by rw [r1, ← inv.state], ?_, ?_⟩
-  · intro v hv hvh
-    rw [r2]
-    exact (inv.votes v hv).2 (by omega)
-  · have := resume_height_run M hs n.crash.store.load (M.init (n.crash.chainHeight + 1)) n.crash
-      (hs.height_init _)
-    exact this
+/-! ## Part 3 — the hypotheses are satisfiable by a machine that votes -/
 
-/-- The crash points between the flush in front of a commit and the delivery of that commit: the
-machine has already moved to the next height but the chain has not. For the run `ins` followed by
-one more input `i` (committing or not), an image that holds the log including `i`'s entry while the
-chain is still one below the height BEFORE `i` recovers the state AFTER `i` (a commit is then
-re-executed — and delivered — by the replay). -/
-theorem replay_deterministic_commit_in_flight {S} (M : Machine S) (hs : ReplaySafe M) (c0 : Nat)
-    (ins : List Input) (ok : ListenOK M (M.init (c0 + 1)) ins) (i : Input)
-    (hi : M.started (liveRun M (M.init (c0 + 1)) ins).1 = true ∨ i = Input.start)
-    (n : Node) (p : Nat)
-    (hchain : n.chainHeight + 1 = M.height (liveRun M (M.init (c0 + 1)) ins).1)
-    (hp : p ≤ n.chainHeight)
-    (hview : (view n.store.flushed).2 = above p (loggedEntries M (M.init (c0 + 1)) ins ++
-      walOf (M.step (liveRun M (M.init (c0 + 1)) ins).1 i).2)) :
-    (recover M n).1 = (M.step (liveRun M (M.init (c0 + 1)) ins).1 i).1 := by
-  have inv := liveInv_run M hs ins _ [] c0 [] (liveInv_init M hs c0) ok
-  have hb : M.height (liveRun M (M.init (c0 + 1)) ins).1 - 1 = n.chainHeight := by omega
-  rw [hb] at inv
-  simp only [List.nil_append] at inv
-  obtain ⟨r1, _⟩ := recover_eq M hs n _ n.chainHeight p rfl hp hview
-  rcases hs.logged_or_inert _ i hi with ⟨h1, h2⟩ | ⟨e, ar, h2, he, hh, hstart, hw⟩
-  · rw [r1, h1, h2]
-    simp only [walOf, List.append_nil]
-    exact inv.state.symm
-  · have hwal : walOf (M.step (liveRun M (M.init (c0 + 1)) ins).1 i).2 = [e] := by
-      rw [h2]; simp [walOf, hw]
-    rw [r1, hwal]
-    exact (liveInv_step M hs _ _ _ _ inv i e ar hi h2 he hh hstart).1.state.symm
+/-- The toy machine of `Model.lean` (proposer or not, any value source) satisfies the hypotheses —
+literally, hence up to equality — and never equivocates. -/
+theorem hypotheses_satisfiable_by_a_voting_machine (proposer : Nat → Bool) (app : Nat → Nat) :
+    ReplaySafe (toyMachine proposer app) ∧ NoEquivocation (toyMachine proposer app) :=
+  ⟨toy_replaySafe proposer app, toy_noEquivocation proposer app⟩
 
-/-- **resume_height.** Whatever the crash image, after recovery the machine's height is exactly one
-above the last delivered height (deliveries performed while replaying included). -/
-theorem resume_height {S} (M : Machine S) (hs : ReplaySafe M) (n : Node) :
-    M.height (recover M n).1 = (recover M n).2.2.chainHeight + 1 :=
-  resume_height_run M hs n.crash.store.load (M.init (n.crash.chainHeight + 1)) n.crash
-    (hs.height_init _)
+/-! ## Part 4 — juno's state machine (C12's transcription) -/
 
-/-- No conflicting vote after recovery, stated for ANY crash image described by its content (the
-crash-point form below is derived from it): the image holds the node's log above a watermark
-`p ≤ chain`, the chain is one below the machine's height, and the votes broadcast before the crash
-are among those of the run. -/
-theorem no_conflicting_vote_after_recovery_from_image {S} (M : Machine S) (hs : ReplaySafe M)
-    (ne : NoEquivocation M) (c0 : Nat) (ins : List Input) (ok : ListenOK M (M.init (c0 + 1)) ins)
-    (n : Node) (p : Nat)
-    (hchain : n.chainHeight + 1 = M.height (liveRun M (M.init (c0 + 1)) ins).1)
-    (hp : p ≤ n.chainHeight)
-    (hview : (view n.store.flushed).2 = above p (loggedEntries M (M.init (c0 + 1)) ins))
-    (pre : List Effect)
-    (hpre : ∀ v ∈ votesOf pre, v ∈ votesOf (liveRun M (M.init (c0 + 1)) ins).2)
-    (cont : List Input) (okc : ListenOK M (recover M n).1 cont) :
-    ∀ v ∈ votesOf pre, ∀ w ∈ votesOf ((recover M n).2.1 ++ (liveRun M (recover M n).1 cont).2),
-      ¬ v.conflicts w := by
-  have inv := liveInv_run M hs ins _ [] c0 [] (liveInv_init M hs c0) ok
-  have hb : M.height (liveRun M (M.init (c0 + 1)) ins).1 - 1 = n.chainHeight := by omega
-  rw [hb] at inv
-  simp only [List.nil_append] at inv
-  exact no_conflict_core M hs ne _ _ _ _ inv.toW n p rfl hp hview pre hpre cont okc
-
-/-- **Every crash point yields a recoverable image** (the bookkeeping behind the next two
-theorems). The process dies after ANY prefix `pre` of the effect trace of ANY run. Then the image
-is that of an earlier moment of the run: there are a machine state `sd`, a log `Ed` and a trace
-`trd` such that the image's live entries are `Ed` above a watermark `p ≤ chain`, its flushed entries
-are exactly `Ed`, `sd` is the state of the replay of the sorted `Ed` above the chain from a fresh
-machine at `chain + 1` and ALSO the state an uncrashed machine reaches on `Ed` in recording order,
-and every vote broadcast in `pre` was broadcast by then. -/
-theorem crash_image_durable {S} (M : Machine S) (hs : ReplaySafe M) (c0 : Nat) (ins : List Input)
-    (ok : ListenOK M (M.init (c0 + 1)) ins) (pre post : List Effect)
-    (hsplit : (liveRun M (M.init (c0 + 1)) ins).2 = pre ++ post) :
-    Durable M c0 (applyEffects (Node.fresh c0) pre) pre := by
-  simpa using durable_all M hs c0 ins _ [] c0 [] (Node.fresh c0) (Ctx.init M hs c0) ok pre post hsplit
-
-/-- **replay_deterministic, for every crash point.** The process dies after ANY prefix `pre` of the
-effect trace (before/after every individual append, flush, broadcast, timer, delivery, prune). The
-restarted node — fresh machine at `chainHeight + 1`, fed the height-sorted, pruned image — ends in
-exactly the state an uncrashed machine, started at the original boot height, reaches when it
-processes exactly the durably recorded inputs (all flushed entries, prunes ignored) in the order
-they were recorded; and it resumes at last delivered height + 1. -/
-theorem recovery_equals_durable_history {S} (M : Machine S) (hs : ReplaySafe M) (c0 : Nat)
-    (ins : List Input) (ok : ListenOK M (M.init (c0 + 1)) ins) (pre post : List Effect)
-    (hsplit : (liveRun M (M.init (c0 + 1)) ins).2 = pre ++ post) :
-    (recover M (applyEffects (Node.fresh c0) pre)).1 =
-      (replayRun M (M.init (c0 + 1))
-        (entriesOfRecs (applyEffects (Node.fresh c0) pre).store.flushed)).1 ∧
-    M.height (recover M (applyEffects (Node.fresh c0) pre)).1 =
-      (recover M (applyEffects (Node.fresh c0) pre)).2.2.chainHeight + 1 := by
-  obtain ⟨sd, Ed, trd, p, hW, hp, hview, hent, _, htw⟩ :=
-    crash_image_durable M hs c0 ins ok pre post hsplit
-  obtain ⟨r1, _⟩ := recover_eq M hs _ Ed _ p rfl hp (by rw [hview])
-  exact ⟨by rw [r1, ← hW.state, htw, hent], resume_height M hs _⟩
-
-/-- **no_conflicting_vote_after_recovery, for every crash point.** The process dies after ANY
-prefix `pre` of the effect trace of ANY run; it is restarted from the crash image and then
-processes ANY further inputs `cont`. No prevote or precommit it broadcasts after the restart —
-while replaying or later — conflicts with (same kind, height, round, different id) one it
-broadcast before the crash. Hypotheses: `ReplaySafe` (the machine used for the recovery is the
-same deterministic function) and `NoEquivocation` (a single uncrashed execution never equivocates).
-Without the first the statement is false: `conflicting_prevote_when_value_source_changes`. -/
-theorem no_conflicting_vote_after_recovery {S} (M : Machine S) (hs : ReplaySafe M)
-    (ne : NoEquivocation M) (c0 : Nat) (ins : List Input)
-    (ok : ListenOK M (M.init (c0 + 1)) ins) (pre post : List Effect)
-    (hsplit : (liveRun M (M.init (c0 + 1)) ins).2 = pre ++ post) (cont : List Input)
-    (okc : ListenOK M (recover M (applyEffects (Node.fresh c0) pre)).1 cont) :
-    ∀ v ∈ votesOf pre,
-      ∀ w ∈ votesOf ((recover M (applyEffects (Node.fresh c0) pre)).2.1 ++
-        (liveRun M (recover M (applyEffects (Node.fresh c0) pre)).1 cont).2),
-      ¬ v.conflicts w := by
-  obtain ⟨sd, Ed, trd, p, hW, hp, hview, _, hv, _⟩ :=
-    crash_image_durable M hs c0 ins ok pre post hsplit
-  exact no_conflict_core M hs ne sd Ed _ trd hW _ p rfl hp (by rw [hview]) pre hv cont okc
-
-/-- **Regular stop and restart.** `Run` returns (context cancelled or a listener closed, both only
-in the select loop) and its deferred `db.Close()` flushes the pending batch — also entries of
-inputs that made nothing visible and were never flushed before. A process restarted on that image
-is in exactly the state of the stopped one, and resumes at the right height. -/
-theorem regular_stop_recovers_exact_state {S} (M : Machine S) (hs : ReplaySafe M) (c0 : Nat)
-    (ins : List Input) (ok : ListenOK M (M.init (c0 + 1)) ins) :
-    (recover M (applyEffects (Node.fresh c0)
-      ((liveRun M (M.init (c0 + 1)) ins).2 ++ [Effect.flush]))).1 =
-      (liveRun M (M.init (c0 + 1)) ins).1 := by
-  obtain ⟨hch, p, hp, hview⟩ := stopped_image M hs c0 ins ok
-  exact (replay_deterministic M hs c0 ins ok _ p hch hp hview).1
-
-/-- **`NoEquivocation` discharged for juno's state machine.** `tmMachine env node` is C12's
-executable transcription of `consensus/tendermint` + `votecounter` (tied to the real code by C12's
-harness, action for action) seen through the driver's interface; C12's `run_no_double_vote` gives
-that it never sends two prevotes or two precommits for the same height and round in one execution
-— for every validator set, application, and every input sequence in which timeouts follow `start`
-(which is what the replay discipline `ReplayOK`, an invariant of the log, guarantees). -/
+/-- **`NoEquivocation` holds for juno's state machine.** `tmMachine env node` is C12's executable
+transcription of `consensus/tendermint` + `votecounter` (tied to the real code by C12's harness,
+action for action, and — since this round — executed by `c13drv` in C13's own correspondence)
+behind the driver's interface; C12's `run_no_double_vote` gives that it never sends two prevotes or
+two precommits for the same height and round in one execution, for every validator set,
+application, and every input sequence in which timeouts follow `start` (the replay discipline
+`ReplayOK`, an invariant of the log). -/
 theorem tendermint_never_equivocates (env : Juno.C12.Env) (node : Nat) :
     NoEquivocation (tmMachine env node) :=
   tm_noEquivocation env node
 
-/-- The crash-point theorem for juno's state machine: only `ReplaySafe` remains as hypothesis (its
-fields are tested on the real machine by the harness; the one that fails in reality — the
-application answering differently during replay — is finding F1). -/
-theorem no_conflicting_vote_after_recovery_tendermint (env : Juno.C12.Env) (node : Nat)
-    (hs : ReplaySafe (tmMachine env node)) (c0 : Nat) (ins : List Input)
-    (ok : ListenOK (tmMachine env node) ((tmMachine env node).init (c0 + 1)) ins)
-    (pre post : List Effect)
-    (hsplit : (liveRun (tmMachine env node) ((tmMachine env node).init (c0 + 1)) ins).2 = pre ++ post)
-    (cont : List Input)
-    (okc : ListenOK (tmMachine env node)
-      (recover (tmMachine env node) (applyEffects (Node.fresh c0) pre)).1 cont) :
-    ∀ v ∈ votesOf pre,
-      ∀ w ∈ votesOf ((recover (tmMachine env node) (applyEffects (Node.fresh c0) pre)).2.1 ++
-        (liveRun (tmMachine env node)
-          (recover (tmMachine env node) (applyEffects (Node.fresh c0) pre)).1 cont).2),
+/-- PARTIAL for juno's machine: the crash theorem with `ReplaySafeUpTo (tmMachine env node) r` as
+hypothesis, for any bisimulation `r` one can supply. NOT discharged: for the code as it is the
+hypothesis is false for every `r` (`tm_replaySafe_fails_for_every_equivalence`, finding F4: a
+counted future-height precommit is not logged); with the proposed fix the remaining obligation is
+to prove it for `r` = "equal up to empty vote-counter containers and the order of the association
+lists" (needs congruence of C12's whole `step` w.r.t. that relation; not done). Until then what
+holds for juno's machine is tested, not proved: shape checks `hyp-*`, recovered state against the
+uncrashed live process and against an uncrashed twin, on every crash point the harness takes.
+
+Full statement wanted: `∀ env node, ∃ r, ReplaySafeUpTo (tmMachine env node) r`. -/
+theorem no_conflicting_vote_after_recovery_tendermint_partial (env : Juno.C12.Env) (node : Nat)
+    (r : Setoid Juno.C12.Machine) (hs : ReplaySafeUpTo (tmMachine env node) r) (c0 : Nat)
+    (n : Node) (hist : List Effect) (hm : Moment (tmMachine env node) c0 n hist)
+    (cont : List Input) (okc : ListenOK (tmMachine env node) (recover (tmMachine env node) n).1 cont) :
+    ∀ v ∈ votesOf hist,
+      ∀ w ∈ votesOf ((recover (tmMachine env node) n).2.1 ++
+        (liveRun (tmMachine env node) (recover (tmMachine env node) n).1 cont).2),
       ¬ v.conflicts w :=
-  no_conflicting_vote_after_recovery _ hs (tm_noEquivocation env node) c0 ins ok pre post hsplit
-    cont okc
+  no_conflict_upTo hs (tm_noEquivocation env node) c0 n hist hm cont okc
 
-/-- The hypotheses of Part 2 are satisfiable: the toy machine of `Model.lean` (proposer or not,
-any value source) is `ReplaySafe`. -/
-theorem replaySafe_satisfiable (proposer : Nat → Bool) (app : Nat → Nat) :
-    ReplaySafe (toyMachine proposer app) := toy_replaySafe proposer app
+/-- NEGATION (finding F4, `future-quorum-precommit-counted-but-not-logged`): in C12's transcription
+of the CURRENT code, with 4 equal validators, the third precommit for (height 3, round 0, id 9)
+received at height 1 returns only `TriggerSync 1 3` — no `WriteWAL` — and a second delivery of the
+same precommit returns nothing: it was counted. -/
+theorem future_quorum_precommit_counted_but_not_logged :
+    (tm4.step tmS2 (.precommit 3 0 3 (some 9))).2 = [Action.triggerSync 1 3] ∧
+    (tm4.step (tm4.step tmS2 (.precommit 3 0 3 (some 9))).1 (.precommit 3 0 3 (some 9))).2 = [] :=
+  tm_future_quorum_precommit_not_logged
 
-/-- `ReplaySafe` and `NoEquivocation` are jointly satisfiable (by the machine that ignores every
-input — a weak witness; `NoEquivocation` of a machine that votes is C12's `no_double_vote`). -/
-theorem hypotheses_jointly_satisfiable : ReplaySafe idleMachine ∧ NoEquivocation idleMachine :=
-  ⟨idle_replaySafe, idle_noEquivocation⟩
+/-- Hence the current machine satisfies the recovery hypotheses for NO state equivalence. -/
+theorem tm_replaySafe_fails_for_every_equivalence (r : Setoid Juno.C12.Machine) :
+    ¬ ReplaySafeUpTo tm4 r :=
+  tm_not_replaySafe_upTo r
 
-/-! ## Part 3 — the defect: the proposer's own value is not in the log
+/-- Why the hypotheses compare states up to `≈` and `unstarted_silent` is about messages only:
+(i) a rejected proposal creates an empty round entry in the vote counter (literal equality fails),
+(ii) `ProcessTimeout` does not look at `isHeightStarted`. -/
+theorem literal_hypotheses_fail_for_tendermint :
+    ((tm4.step tmS0 (.proposal 1 5 2 (-1) 9)).2 = [] ∧
+      (tm4.step tmS0 (.proposal 1 5 2 (-1) 9)).1.vc.rounds.length = 1 ∧ tmS0.vc.rounds.length = 0) ∧
+    visA (tm4.step (tm4.init 1) (.timeout 0 1 0)).2 ≠ [] :=
+  ⟨tm_rejected_input_changes_state_literally, tm_timeout_before_start_is_not_silent⟩
 
-`no_conflicting_vote_after_recovery` needs that the machine used after the restart is the SAME
-function `step` as before (the `Application` answers identically during replay). The log cannot
-enforce this: the value returned by `Application.Value()` is not logged, and replay re-executes
-`startRound`, calls `Value()` again and re-broadcasts. Witness on the model (the same scenario is
-replayed on the real driver by the harness, sig `conflicting-prevote-after-recovery-own-proposal`):
--/
+/-! ## Part 5 — the known defects as witnesses on the model -/
 
-/-- **Negation witness.** A proposer whose value source returns `101` before the crash and `102`
-after it: the process dies after broadcasting its proposal and prevote for height 4 round 0; the
-recovered process broadcasts a prevote for a different id at the same height and round. -/
+/-- **F1 (known).** `no_conflicting_vote_after_recovery` needs ONE `step` for the run and the
+recovery. The log cannot enforce it: the value returned by `Application.Value()` is not logged, and
+replay re-executes `startRound`, calls `Value()` again and re-broadcasts. A proposer whose value
+source returns `101` before the crash and `102` after it: the process dies after broadcasting its
+proposal and prevote for height 4 round 0; the recovered process broadcasts a prevote for a
+different id at the same height and round (harness sig
+`conflicting-prevote-after-recovery-own-proposal-value-changed`). -/
 theorem conflicting_prevote_when_value_source_changes :
     let M := toyMachine (fun _ => true) (fun _ => 101)
     let M' := toyMachine (fun _ => true) (fun _ => 102)
@@ -288,15 +204,10 @@ theorem conflicting_prevote_when_value_source_changes :
       v.conflicts w := by
   decide
 
-/-- **Second witness: a `Start` entry that carries the next height.** `ReplaySafe.logged_or_inert`
-demands that the entry of a `start` carries the height being started. The real `ProcessStart`
-logs a POINTER to its height field; when the same call already commits the height, the entry is
-written with the next height (harness sig `start-entry-logged-with-next-height`, fix in
-`proposed-fixes/C13-start-entry-aliases-height.diff`). On the model: with the aliased entry the
-log keeps a `Start` for the next height after the prune, the restarted node replays it (here it
-even commits once more) and does NOT end in the state of the uncrashed run; with the entry
-carrying the started height it does. -/
-theorem start_entry_with_next_height_breaks_replay :
+/-- REGRESSION WITNESS for a defect FIXED in /repo (f170e6a), not about the current code: a `Start`
+entry that carries the height AFTER a commit inside `ProcessStart` survives the prune and breaks
+recovery (`aliased = true`); with the started height it does not (`aliased = false`). -/
+theorem start_entry_with_next_height_breaks_replay_before_f170e6a :
     let M := eagerMachine true
     let M' := eagerMachine false
     let n := applyEffects (Node.fresh 3) (liveRun M (M.init 4) [Input.start]).2
@@ -305,34 +216,56 @@ theorem start_entry_with_next_height_breaks_replay :
     (recover M' n').1 = (liveRun M' (M'.init 4) [Input.start]).1 := by
   decide
 
--- non-vacuity / sanity of the definitions on concrete runs
+/-! ## Non-vacuity -/
+
+-- the crash theorem instantiated on a VOTING machine, on a history with two crashes, where votes
+-- were broadcast before the crashes: first process dies after `sv:4:0:7` and `sc:4:0:7`, the
+-- second dies in the middle of its replay
+example :
+    let M := toyMachine (fun _ => false) (fun _ => 0)
+    let ins : List Input := [.start, .proposal 4 0 2 (-1) 7, .prevote 5 0 3 none, .prevote 4 0 3 (some 7)]
+    let tr := (liveRun M (M.init 4) ins).2
+    let n := applyEffects (Node.fresh 3) tr
+    votesOf tr = [⟨.prevote, 4, 0, some 7⟩, ⟨.precommit, 4, 0, some 7⟩] ∧
+      (recover M n).2.1.take 2 ++ (recover M n).2.1.drop 2 = (recover M n).2.1 ∧
+      votesOf (recover M n).2.1 = [⟨.prevote, 4, 0, some 7⟩, ⟨.precommit, 4, 0, some 7⟩] := by
+  decide
+
+example (cont : List Input) :
+    let M := toyMachine (fun _ => false) (fun _ => 0)
+    let ins : List Input := [.start, .proposal 4 0 2 (-1) 7, .prevote 5 0 3 none, .prevote 4 0 3 (some 7)]
+    let n := applyEffects (Node.fresh 3) (liveRun M (M.init 4) ins).2
+    let n2 := applyEffects n.crash ((recover M n).2.1.take 2)
+    ListenOK M (recover M n2).1 cont →
+    ∀ v ∈ votesOf ((liveRun M (M.init 4) ins).2 ++ (recover M n).2.1.take 2),
+      ∀ w ∈ votesOf ((recover M n2).2.1 ++ (liveRun M (recover M n2).1 cont).2), ¬ v.conflicts w := by
+  intro M ins n n2 okc
+  have ok : ListenOK M (M.init 4) ins := by
+    show ListenOK (toyMachine (fun _ => false) (fun _ => 0)) (Toy.init 4)
+      [.start, .proposal 4 0 2 (-1) 7, .prevote 5 0 3 none, .prevote 4 0 3 (some 7)]
+    simp only [ListenOK]
+    decide
+  have m1 : Moment M 3 n (liveRun M (M.init 4) ins).2 :=
+    Moment.first ins ok _ [] (List.append_nil _).symm
+  have m2 : Moment M 3 n2 ((liveRun M (M.init 4) ins).2 ++ (recover M n).2.1.take 2) :=
+    Moment.replaying n _ m1 _ ((recover M n).2.1.drop 2) (List.take_append_drop 2 _).symm
+  have hs := toy_replaySafe (fun _ => false) (fun _ => 0)
+  exact durable_no_conflict M hs (toy_noEquivocation _ _) 3 n2 _ (moment_durable M hs 3 n2 _ m2) cont okc
+
 example : (liveRun (toyMachine (fun _ => true) (fun _ => 101)) (Toy.init 4) [Input.start]).2 =
     [.append (.start 4), .flush, .sendProposal 4 0 (-1) 101, .flush, .sendPrevote 4 0 (some 101)] := by
   decide
 
-example :
-    let M := toyMachine (fun _ => false) (fun _ => 0)
-    let tr := (liveRun M (M.init 4)
-      [.start, .proposal 4 0 2 (-1) 7, .prevote 5 0 3 none, .prevote 4 0 3 (some 7),
-       .precommit 4 0 3 (some 7), .start]).2
-    -- crash in the middle of the commit: delivered, prune not yet flushed
-    let n := applyEffects (Node.fresh 3) (tr.take 13)
-    n.chainHeight = 4 ∧ n.crash.store.load.length = 5 ∧
-      (recover M n).1 = Toy.init 5 ∧ (recover M n).2.1 = [] := by
-  decide
-
--- non-vacuity of `replay_deterministic`'s hypotheses: a concrete run with a future-height message
--- in the log, crashed right after its last effect; the image satisfies `hchain`, `hp`, `hview`.
-example :
-    let M := toyMachine (fun _ => false) (fun _ => 0)
-    let ins : List Input := [.start, .proposal 4 0 2 (-1) 7, .prevote 5 0 3 none, .prevote 4 0 3 (some 7)]
-    let n := applyEffects (Node.fresh 3) (liveRun M (M.init 4) ins).2
-    ListenOK M (M.init 4) ins ∧ n.chainHeight + 1 = M.height (liveRun M (M.init 4) ins).1 ∧
-      (view n.store.flushed).2 = above 0 (loggedEntries M (M.init 4) ins) ∧
-      (recover M n).1 = (liveRun M (M.init 4) ins).1 ∧
-      votesOf (recover M n).2.1 = [⟨.prevote, 4, 0, some 7⟩, ⟨.precommit, 4, 0, some 7⟩] := by
-  refine ⟨?_, by decide⟩
-  simp only [ListenOK]
-  decide
+/-
+NOT covered by a theorem about the CURRENT code (see notes/C13.md, "Coverage"):
+* `ReplaySafeUpTo` for juno's machine (`…_tendermint_partial` above) — tested by the harness only;
+* the block-sync path (`TriggerSync` is executed by the driver, `ProcessSync`, `syncListener`,
+  including the re-execution of stale actions after a failed fetch, driver.go:149-162);
+* error returns of `execute` (`Flush` failing, commit refused) — harness fault injection only;
+* the chain advancing without the driver (blocks stored by the sync service while the validator is
+  down): only `recovery_equals_live_run`'s resume-height clause holds for arbitrary images;
+* conflicting re-PROPOSALS (only prevotes and precommits are in `votesOf`, as in the property text);
+* `Application.Valid()` changing across the restart (F3) is, like F1, outside `step` being one function.
+-/
 
 end Juno.C13.Props
